@@ -41,8 +41,9 @@ func VerifC19History() {
 	ctx := context.Background()
 	var pa, ma, pb, mb int
 	saved := false
+	trimmed := false
 	for s := 0; s < steps; s++ {
-		switch vstub.NdChoice("step", 6) {
+		switch vstub.NdChoice("step", 7) {
 		case 4: // a saves a snapshot of its current log
 			if _, err := SaveSnapshot(ctx, sa); err != nil {
 				vstub.Fail("C19 SaveSnapshot failed")
@@ -59,6 +60,21 @@ func VerifC19History() {
 				return
 			}
 			vstub.Cover("snapshot-loaded")
+		case 6: // a, still open, is loaded again from its own disk: everything, or the k most recent entries
+			limit := -1
+			if k := vstub.NdChoice("load-limit", 3); k > 0 {
+				limit = k
+				if a.OpLog().Len() > k {
+					// (the log is trimmed: from now on a does not hold a complete log, only
+					// the never-decrease clause applies to it)
+					trimmed = true
+				}
+			}
+			if err := a.Load(ctx, limit); err != nil {
+				vstub.Fail("C19 Load on the open store failed")
+				return
+			}
+			vstub.Cover("loaded-while-open")
 		case 0:
 			_, _ = a.AddOperation(ctx, operation.NewOperation(nil, "ADD", []byte{'a', byte(s)}), nil)
 		case 1:
@@ -75,7 +91,9 @@ func VerifC19History() {
 		vstub.Assert(b.ReplicationStatus().GetMax() >= mb, "C19 maximum never decreases (b)")
 		pa, ma = a.ReplicationStatus().GetProgress(), a.ReplicationStatus().GetMax()
 		pb, mb = b.ReplicationStatus().GetProgress(), b.ReplicationStatus().GetMax()
-		statusOK(a, "a")
+		if !trimmed {
+			statusOK(a, "a")
+		}
 		statusOK(b, "b")
 	}
 	vstub.Cover("history")
